@@ -1,6 +1,7 @@
 import GoCrypt.Props.C02
 import GoCrypt.Props.C10
 import GoCrypt.Gen.Flow
+import GoCrypt.Props.EndToEnd
 
 /-!
 # C12 — generated hashes are canonical and Params, Key and Check agree with each other
@@ -53,5 +54,30 @@ theorem defaults_are_documented :
 #print axioms GoCrypt.C10.canonical_bcrypt
 #print axioms GoCrypt.C10.canonical_nthash
 #print axioms GoCrypt.C10.canonical_argon2
+-- END TO END (model): the generated string is accepted by the independent recogniser of the documented layout with exactly the
+-- documented prefix, the requested cost in canonical form, a default-length salt over the alphabet and a fixed-length digest;
+-- Params returns what was requested
+#print axioms GoCrypt.EndToEnd.newHash_canonical_md5
+#print axioms GoCrypt.EndToEnd.newHash_canonical_sha1
+#print axioms GoCrypt.EndToEnd.newHash_canonical_sha256
+#print axioms GoCrypt.EndToEnd.newHash_canonical_sha512
+#print axioms GoCrypt.EndToEnd.newHash_canonical_nthash
+#print axioms GoCrypt.EndToEnd.newHash_canonical_des
+#print axioms GoCrypt.EndToEnd.newHash_canonical_desext
+#print axioms GoCrypt.EndToEnd.newHash_canonical_bcrypt
+#print axioms GoCrypt.EndToEnd.newHash_canonical_sunmd5
+#print axioms GoCrypt.EndToEnd.newHash_canonical_argon2
+#print axioms GoCrypt.EndToEnd.newHash_canonical_argon2'
+#print axioms GoCrypt.EndToEnd.params_of_newHash_md5
+#print axioms GoCrypt.EndToEnd.params_of_newHash_sha1
+#print axioms GoCrypt.EndToEnd.params_of_newHash_sha256
+#print axioms GoCrypt.EndToEnd.params_of_newHash_sha512
+#print axioms GoCrypt.EndToEnd.params_of_newHash_nthash
+#print axioms GoCrypt.EndToEnd.params_of_newHash_des
+#print axioms GoCrypt.EndToEnd.params_of_newHash_desext
+#print axioms GoCrypt.EndToEnd.params_of_newHash_bcrypt
+#print axioms GoCrypt.EndToEnd.params_of_newHash_sunmd5
+#print axioms GoCrypt.EndToEnd.params_of_newHash_argon2
+#print axioms GoCrypt.EndToEnd.params_of_newHash_argon2'
 
 end GoCrypt.C12
